@@ -110,3 +110,23 @@ package latch
 //@   bytes: key
 //@   may-panic
 //@   ensures nolost: scheduler.latches.owed == old(scheduler.latches.owed)
+
+// A new lock names one slot per key (positionally aligned - what acquireSlot and releaseSlot rely on), has acquired
+// nothing yet and is not stale.
+//@ func (*Latches) genSlotIDs
+//@   prop C17
+//@   bytes: key
+//@   opaque-callee slotID
+//@   loop 1 invariant idx: -1 <= rangeindex && rangeindex < len(keys) && len(slots) == rangeindex + 1
+//@   ensures aligned: len(result) == len(keys)
+//@ func (*Latches) genLock
+//@   prop C17
+//@   bytes: key
+//@   ensures fresh: result != nil && len(result.requiredSlots) == len(result.keys) && len(result.keys) == len(keys) && result.acquiredCount == 0 && !result.isStale && result.startTS == startTS
+
+// Lock (scheduler): the caller gets the lock back only when it is no longer waiting - all slots acquired, or stale.
+//@ func (*LatchesScheduler) Lock
+//@   prop C17
+//@   bytes: key
+//@   may-panic
+//@   ensures settled: result != nil && (result.isStale || result.acquiredCount == len(result.requiredSlots))
